@@ -1,7 +1,8 @@
 /-
 Model of the poll thread, `frappy/modulebase.py`:
   `PollInfo` (246-268), `Module.setFastPoll` (662-671), `Module.callPollFunc` (673-695),
-  `Module.__pollThread` (697-795: prologue 726-749, loop 752-795), reconnect re-trigger (706-713).
+  `Module.__pollThread` (prologue: start-up round, start-up callback, `writeInitParams` of every module once more;
+  then the loop), reconnect re-trigger.  (Line numbers in this file refer to the pinned tree before the `fix:` commits.)
 
 Time is a virtual clock in integer ticks (the harness uses 1 tick = 2^-10 s, every interval and duration is a
 multiple of it, so the float arithmetic of the real loop is exact and equals the `Nat` arithmetic here).
@@ -61,7 +62,8 @@ inductive Outcome
 inductive Fn
   | doPoll
   | read (p : Nat)
-  | init                     -- `initialReads`
+  | init                     -- `writeInitParams` + `initialReads` of the start-up round
+  | write                    -- `writeInitParams` behind the start-up round (makes up for what a broken-off round skipped)
   deriving DecidableEq, Repr, Inhabited
 
 /-- start of a call made by the poll thread: time, module (index in the thread's module list), function, duration -/
@@ -388,12 +390,31 @@ def allEntries : Nat → List Mod → List Entry
   | _, [] => []
   | i, m :: ms => (if m.enabled then m.polled.map (fun p => (i, p)) else []) ++ allEntries (i + 1) ms
 
-def prologue (c : Consts) (env : Env) (σ : PollState) : ProRes :=
+/-- the start-up round (`while True: try: … except CommunicationFailedError: … wait(0.1); break`): a communication
+failure in `initialReads` or in a first poll ends it at once -/
+def startupRound (c : Consts) (env : Env) (σ : PollState) : ProRes :=
   let r1 := initAll env (List.range σ.mods.length) σ []
   if r1.aborted then ⟨waitEvent env r1.σ c.startupWait, r1.evs, true⟩
   else
     let r2 := readAll env (allEntries 0 r1.σ.mods) r1.σ r1.evs
     if r2.aborted then ⟨waitEvent env r2.σ c.startupWait, r2.evs, true⟩ else r2
+
+/-- `for mobj in modules: mobj.writeInitParams()` behind the start-up round (`fix: start values skipped by a communication
+failure at startup are written before polling starts`): one call per module of the thread, polled or not.  It takes
+time, other threads act meanwhile; whatever a write function raises ends inside `writeInitParams`, so the outcome is not
+looked at.  (For a module whose values are already written it returns at once: duration 0 in the recorded environments.) -/
+def lateAll (env : Env) : List Nat → PollState → List Event → StepRes
+  | [], σ, evs => ⟨σ, evs⟩
+  | i :: is, σ, evs =>
+    let r := call env σ i .write
+    lateAll env is r.σ (evs ++ [r.ev])
+
+/-- everything before `while modules:` — the start-up round, then (after the start-up callback, which is not a call of
+the model) the configured values once more -/
+def prologue (c : Consts) (env : Env) (σ : PollState) : ProRes :=
+  let r := startupRound c env σ
+  let l := lateAll env (List.range r.σ.mods.length) r.σ r.evs
+  ⟨l.σ, l.evs, r.aborted⟩
 
 /-! ## the state the thread starts in -/
 
